@@ -636,6 +636,255 @@ class Resolver:
                 self._expr(c, scopes, fn)
 
 
+LUA_REF_PATH = os.path.join(os.path.dirname(os.path.dirname(os.path.abspath(__file__))), "reference_lua.json")
+_LUA_REF = None
+
+
+def lua_reference() -> dict:
+    """{file name: [function names of the pinned tree]} (tools/gen_reference_locals.py)"""
+    global _LUA_REF
+    if _LUA_REF is None:
+        try:
+            import json
+
+            with open(LUA_REF_PATH, encoding="utf-8") as f:
+                _LUA_REF = json.load(f)
+        except OSError:
+            _LUA_REF = {}
+    return _LUA_REF
+
+
+def function_names(chunk) -> list:
+    out = []
+    for n in walk(chunk):
+        if n.kind == "localfunction":
+            out.append(n.name)
+        elif n.kind == "assign":
+            for t, v in zip(n.targets, n.exprs):
+                if v.kind == "function":
+                    out.append(_target_text(t))
+        elif n.kind == "local":
+            for nm, v in zip(n.names, n.exprs):
+                if v.kind == "function":
+                    out.append(nm)
+    return sorted(set(out))
+
+
+def _deepcopy(n):
+    import copy
+
+    return copy.deepcopy(n)
+
+
+def inline_new_helpers(chunk, pinned: set) -> int:
+    """Helper extraction undone for the Lua sources: a `local function h() ... end` that the pinned tree does not have, takes
+    no parameters and is not recursive is inlined -- `h()` as a statement becomes its body (when the body has no return),
+    `h()` as an expression becomes the returned expression (when the body is a single `return e`).  Returns the number of
+    inlined calls.  Helpers with parameters, several returns or returns in the middle are left alone (the rules then see a
+    call they do not know, which makes them inconclusive, not wrong)."""
+    helpers = {}
+    for n in walk(chunk):
+        if n.kind == "localfunction" and n.name not in pinned and not n.func.params and not getattr(n.func, "vararg", False):
+            body = n.func.body
+            calls_self = any(c.kind == "call" and c.func.kind == "name" and c.func.id == n.name for c in walk(n.func))
+            if calls_self:
+                continue
+            rets = [x for x in walk(n.func) if x.kind == "return"]
+            nested_fn_rets = [x for f in walk(n.func) if f.kind == "function" and f is not n.func for x in walk(f) if x.kind == "return"]
+            own_rets = [x for x in rets if not any(x is y for y in nested_fn_rets)]
+            if not own_rets:
+                helpers[n.name] = ("stmts", body)
+            elif len(own_rets) == 1 and len(body) == 1 and body[0] is own_rets[0] and len(own_rets[0].exprs) == 1:
+                helpers[n.name] = ("expr", own_rets[0].exprs[0])
+    if not helpers:
+        return 0
+    count = 0
+
+    def is_call(e, kind):
+        return e.kind == "call" and e.func.kind == "name" and e.func.id in helpers and helpers[e.func.id][0] == kind and not e.args
+
+    def rewrite_expr(e):
+        nonlocal count
+        if e is None:
+            return e
+        if is_call(e, "expr"):
+            count += 1
+            return rewrite_expr(_deepcopy(helpers[e.func.id][1]))
+        k = e.kind
+        if k == "call":
+            e.func = rewrite_expr(e.func)
+            e.args = [rewrite_expr(a) for a in e.args]
+        elif k == "methcall":
+            e.obj = rewrite_expr(e.obj)
+            e.args = [rewrite_expr(a) for a in e.args]
+        elif k == "index":
+            e.obj, e.key = rewrite_expr(e.obj), rewrite_expr(e.key)
+        elif k == "paren":
+            e.expr = rewrite_expr(e.expr)
+        elif k == "unop":
+            e.operand = rewrite_expr(e.operand)
+        elif k == "binop":
+            e.left, e.right = rewrite_expr(e.left), rewrite_expr(e.right)
+        elif k == "table":
+            e.fields = [(kk if kk is None else rewrite_expr(kk), rewrite_expr(v)) for kk, v in e.fields]
+        elif k == "function":
+            e.body = rewrite_block(e.body)
+        return e
+
+    def rewrite_block(stmts):
+        nonlocal count
+        out = []
+        for st in stmts:
+            k = st.kind
+            if k == "callstat" and is_call(st.call, "stmts"):
+                count += 1
+                out.extend(rewrite_block(_deepcopy(helpers[st.call.func.id][1])))
+                continue
+            if k == "localfunction":
+                if st.name in helpers:
+                    continue  # definition of an inlined helper
+                st.func.body = rewrite_block(st.func.body)
+            elif k in ("do", "function"):
+                st.body = rewrite_block(st.body)
+            elif k == "if":
+                st.clauses = [(rewrite_expr(c), rewrite_block(b)) for c, b in st.clauses]
+                if st.orelse is not None:
+                    st.orelse = rewrite_block(st.orelse)
+            elif k in ("while", "repeat"):
+                st.cond = rewrite_expr(st.cond)
+                st.body = rewrite_block(st.body)
+            elif k == "fornum":
+                st.start, st.stop = rewrite_expr(st.start), rewrite_expr(st.stop)
+                st.step = rewrite_expr(st.step) if st.step is not None else None
+                st.body = rewrite_block(st.body)
+            elif k == "forin":
+                st.exprs = [rewrite_expr(e) for e in st.exprs]
+                st.body = rewrite_block(st.body)
+            elif k == "return":
+                st.exprs = [rewrite_expr(e) for e in st.exprs]
+            elif k == "assign":
+                st.targets = [rewrite_expr(t) for t in st.targets]
+                st.exprs = [rewrite_expr(e) for e in st.exprs]
+            elif k == "local":
+                st.exprs = [rewrite_expr(e) for e in st.exprs]
+            elif k == "callstat":
+                st.call = rewrite_expr(st.call)
+            out.append(st)
+        return out
+
+    chunk.body = rewrite_block(chunk.body)
+    return count
+
+
+def chunk_locals(chunk) -> list:
+    out = []
+    for st in chunk.body:
+        if st.kind == "local":
+            out.extend(st.names)
+        elif st.kind == "localfunction":
+            out.append(st.name)
+    return sorted(set(out))
+
+
+def unroll_constant_loops(chunk, pinned_locals: set) -> int:
+    """`local T = {c1, c2, ...}` (a list of constants that the pinned tree does not have) followed by
+    `for i = 1, #T do BODY end` or `for _, v in ipairs(T) do BODY end`, where BODY reads the loop variable only as `T[i]`
+    (resp. `v`), is the sequence BODY[c1], BODY[c2], ... -- a table-driven rewrite of repeated statements is turned back into
+    the statements.  Concatenations of string constants produced by the substitution are folded.  Returns the number of loops
+    unrolled."""
+    tables = {}
+    for st in chunk.body:
+        if st.kind == "local" and len(st.names) == 1 and len(st.exprs) == 1 and st.exprs[0].kind == "table" and st.names[0] not in pinned_locals:
+            t = st.exprs[0]
+            if t.fields and all(k is not None and k.kind == "number" for k, v in t.fields) and all(v.kind in ("string", "number") for k, v in t.fields):
+                tables[st.names[0]] = [v for k, v in t.fields]
+    if not tables:
+        return 0
+    # a table that is read or written anywhere except by such loops is left alone
+    count = 0
+
+    def subst(n, pred, repl):
+        """replace every sub-expression satisfying pred by a copy of repl"""
+        if n is None:
+            return n
+        if pred(n):
+            return _deepcopy(repl)
+        k = n.kind
+        for fld in ("func", "obj", "key", "expr", "operand", "left", "right", "cond", "start", "stop", "step", "call"):
+            if hasattr(n, fld) and getattr(n, fld) is not None and hasattr(getattr(n, fld), "kind"):
+                setattr(n, fld, subst(getattr(n, fld), pred, repl))
+        for fld in ("args", "exprs", "targets", "body"):
+            if hasattr(n, fld) and isinstance(getattr(n, fld), list):
+                setattr(n, fld, [subst(x, pred, repl) if hasattr(x, "kind") else x for x in getattr(n, fld)])
+        if k == "table":
+            n.fields = [(kk if kk is None else subst(kk, pred, repl), subst(v, pred, repl)) for kk, v in n.fields]
+        if k == "if":
+            n.clauses = [(subst(c, pred, repl), [subst(x, pred, repl) for x in b]) for c, b in n.clauses]
+            if n.orelse is not None:
+                n.orelse = [subst(x, pred, repl) for x in n.orelse]
+        if k == "localfunction":
+            n.func = subst(n.func, pred, repl)
+        return n
+
+    def fold(n):
+        if n is None or not hasattr(n, "kind"):
+            return n
+        for fld in ("func", "obj", "key", "expr", "operand", "left", "right", "cond", "start", "stop", "step", "call"):
+            if hasattr(n, fld) and getattr(n, fld) is not None and hasattr(getattr(n, fld), "kind"):
+                setattr(n, fld, fold(getattr(n, fld)))
+        for fld in ("args", "exprs", "targets", "body"):
+            if hasattr(n, fld) and isinstance(getattr(n, fld), list):
+                setattr(n, fld, [fold(x) if hasattr(x, "kind") else x for x in getattr(n, fld)])
+        if n.kind == "binop" and n.op == "..":
+            l, r = n.left, n.right
+            if l.kind == "string" and r.kind == "string":
+                return N("string", n.line, value=l.value + r.value)
+            # a .. ("x" .. rest) with a == string
+            if l.kind == "string" and r.kind == "binop" and r.op == ".." and r.left.kind == "string":
+                return fold(N("binop", n.line, op="..", left=N("string", n.line, value=l.value + r.left.value), right=r.right))
+        return n
+
+    def uses_var(body, var, allowed_pred) -> bool:
+        for st in body:
+            for x in walk(st):
+                if x.kind == "name" and x.id == var:
+                    # is this occurrence the key of an allowed T[i]?
+                    if not allowed_pred(x):
+                        return True
+        return False
+
+    new_body = []
+    for st in chunk.body:
+        done = False
+        if st.kind == "fornum" and st.step is None and st.start.kind == "number" and str(st.start.value) in ("1", "1.0") \
+                and st.stop.kind == "unop" and st.stop.op == "#" and st.stop.operand.kind == "name" and st.stop.operand.id in tables:
+            T, i = st.stop.operand.id, st.var
+            idx_nodes = [x for b in st.body for x in walk(b) if x.kind == "index" and x.obj.kind == "name" and x.obj.id == T and x.key.kind == "name" and x.key.id == i]
+            keys = {id(x.key) for x in idx_nodes}
+            if idx_nodes and not uses_var(st.body, i, lambda x: id(x) in keys):
+                for el in tables[T]:
+                    for b in st.body:
+                        c = _deepcopy(b)
+                        c = subst(c, lambda x: x.kind == "index" and x.obj.kind == "name" and x.obj.id == T and x.key.kind == "name" and x.key.id == i, el)
+                        new_body.append(fold(c))
+                count += 1
+                done = True
+        elif st.kind == "forin" and len(st.exprs) == 1 and st.exprs[0].kind == "call" and text(st.exprs[0].func) in ("ipairs", "_orig_ipairs") \
+                and len(st.exprs[0].args) == 1 and st.exprs[0].args[0].kind == "name" and st.exprs[0].args[0].id in tables and len(st.names) == 2:
+            T, iv, v = st.exprs[0].args[0].id, st.names[0], st.names[1]
+            if not uses_var(st.body, iv, lambda x: False):
+                for el in tables[T]:
+                    for b in st.body:
+                        c = subst(_deepcopy(b), lambda x: x.kind == "name" and x.id == v, el)
+                        new_body.append(fold(c))
+                count += 1
+                done = True
+        if not done:
+            new_body.append(st)
+    chunk.body = new_body
+    return count
+
+
 class LuaFile:
     def __init__(self, path: str):
         self.path = path
@@ -643,6 +892,12 @@ class LuaFile:
         with open(path, encoding="utf-8") as f:
             self.src = f.read()
         self.chunk = parse(self.src, self.name)
+        self.inlined_helpers = 0
+        pinned = lua_reference().get(self.name)
+        self.unrolled_loops = 0
+        if pinned is not None and os.environ.get("VERIF_NO_CANON") != "1":
+            self.inlined_helpers = inline_new_helpers(self.chunk, set(pinned["functions"]))
+            self.unrolled_loops = unroll_constant_loops(self.chunk, set(pinned["locals"]))
         self.res = Resolver(self.chunk)
         self.functions = [n for n in walk(self.chunk) if n.kind == "function"]
 
